@@ -613,12 +613,14 @@ func ruleContiguousAdvance(w *core.World, r *core.Report, name string) {
 		}
 		return false
 	}
+	// ... or `m[k] != nil` for a map whose values can be nil (pointers here): an absent key reads as nil, so a
+	// non-nil value was found (nilLookupFound, r7_n3.go)
+	factFound := func(fct core.Fact) bool {
+		return (fct.Val && isFound(fct.Cond, 0)) || nilLookupFound(fct, isNextKey)
+	}
 	foundAt := func(b *ssa.BasicBlock) bool {
 		for _, fct := range core.FactsAt(b) {
-			if !fct.Val {
-				continue
-			}
-			if isFound(fct.Cond, 0) {
+			if factFound(fct) {
 				return true
 			}
 		}
@@ -673,10 +675,7 @@ func ruleContiguousAdvance(w *core.World, r *core.Report, name string) {
 		// dominated by "found" of a lookup keyed by nextSeq
 		found := false
 		for _, fct := range core.FactsAt(st.Block()) {
-			if !fct.Val {
-				continue
-			}
-			if isFound(fct.Cond, 0) {
+			if factFound(fct) {
 				found = true
 			}
 		}
@@ -1317,6 +1316,13 @@ func ruleRootOverrideDropsFrontierState(w *core.World, r *core.Report) {
 			if rs.Instr.Parent() == f && core.Dominates(rs.Instr, iff) {
 				rebuilt = true
 			}
+		}
+		if !rebuilt {
+			// the rebuild may be the last step of a phase of its own that leaves early when a load fails: then it is
+			// not "always run" by that helper's call, yet every path that gets as far as this decision ran it
+			rebuilt = everyPathToPasses(f, b, func(s core.Site) bool {
+				return s.Name == "pkg/redis/checkpoint.RebuildBisyncFrontier"
+			})
 		}
 		if !rebuilt {
 			continue
